@@ -3,9 +3,14 @@
 use crate::harness::{Program, Tier};
 use std::collections::BTreeMap;
 
+pub mod c01;
 pub mod c04;
+pub mod strfam;
 pub mod c05;
 pub mod c06;
+pub mod c12;
+pub mod c16;
+pub mod c18;
 
 #[derive(Clone, Copy, Debug, PartialEq, Eq)]
 pub enum Mode {
@@ -38,7 +43,7 @@ pub struct PropDef {
 }
 
 pub fn all() -> Vec<PropDef> {
-    vec![c04::def(), c05::def(), c06::def()]
+    vec![c01::def(), c04::def(), c05::def(), c06::def(), c12::def(), c16::def(), c18::def()]
 }
 
 pub fn get(id: &str) -> Option<PropDef> {
